@@ -241,7 +241,9 @@ def mdp : P String := do
   let rec ← pRec; P.eof
   let n := h.length
   let rows := mdpFlatRows S A ddn R γ h
-  let c := mdpFlatObj S h
+  -- the objective AS THE CODE STATES IT (Σ_k mean(h_k.values) · w_k); that it is the uniform average of V_w over the joint
+  -- states (`mdpFlatObj`) is decided exactly below and reported as a correspondence clause
+  let c := mdpStatedObj h
   -- model: backProject, then the generated LP
   let gModel := h.map (backProject1 S A ddn)
   let joined := AITB.Gen.mdpJoinsFinals
@@ -264,7 +266,7 @@ def mdp : P String := do
   let v := { v with tag := v.tag ++ (if tiny then " tiny_entries" else "") }
   let v := lpDiff "LinearProgramming" v gen ((mdpStatedObj h).zipIdx.map (fun (q, i) => (i, q))) rec
   -- the objective the code states (Σ_k mean(h_k.values) w_k) is the flat objective Σ_s V_w(s)/|S|: decided exactly here
-  let v := v.diffIf (mdpStatedObj h != c) "LinearProgramming.lp stated_objective_is_not_the_uniform_flat_objective"
+  let v := v.diffIf (mdpFlatObj S h != c) "LinearProgramming.lp stated_objective_is_not_the_uniform_flat_objective"
   let sfx := if multi then "_multi_component" else ""
   match simplex n rows c with
   | .fuel => return "skip simplex_fuel"
